@@ -443,8 +443,8 @@ theorem processBatch_effect (L0 kv0 B s) (h : Inv L0 kv0 B s) (hnd : s.workerDea
       frontier (processBatch s) = frontier s + k ∧
       (processBatch s).cfgCalls = s.cfgCalls ++
         ((seg s.log (frontier s) (min s.pending s.log.length)).foldl pbStep {}).cfg ∧
-      (((seg s.log (frontier s) (min s.pending s.log.length)).foldl pbStep {}).err = false →
-        frontier s + k = min s.pending s.log.length) ∧
+      cfgOf (seg s.log (frontier s) (frontier s + k)) =
+        cfgOf (seg s.log (frontier s) (min s.pending s.log.length)) ∧
       (processBatch s).log = s.log := by
   have hstart : max (s.lastApplied + 1) (s.dispatched + 1) = frontier s + 1 := by
     unfold frontier; omega
@@ -470,13 +470,10 @@ theorem processBatch_effect (L0 kv0 B s) (h : Inv L0 kv0 B s) (hnd : s.workerDea
     split <;> omega
   · unfold processBatch
     simp only [hnd, Bool.false_eq_true, if_false, hpl, if_true, hstart, hsp, hes]
-  · intro herr
-    have hr := hrest herr
-    rw [hr] at hpre
-    have hlen := congrArg List.length hpre
-    rw [seg_length _ _ _ (Nat.min_le_right _ _)] at hlen
-    simp only [List.append_nil] at hlen
-    omega
+  · have hnc := processEntries_rest_noconfig _ rest hne hpre
+    rw [← hflat]
+    conv => rhs; rw [hpre]
+    rw [cfgOf_append, hnc, List.append_nil]
   · unfold processBatch
     simp only [hnd, Bool.false_eq_true, if_false, hpl, if_true, hstart, hsp, hes]
 
@@ -521,7 +518,6 @@ def AllCfgOk (ops : List Op) : Prop := ∀ op ∈ ops, op ≠ Op.append (Payload
 
 /-- Invariant for the membership-call list (`F0` = frontier at the start). -/
 structure CfgInv (F0 : Nat) (s : St) : Prop where
-  ok : ∀ p ∈ s.log, p ≠ Payload.config false
   le : F0 ≤ frontier s
   calls : s.cfgCalls = cfgOf (seg s.log F0 (frontier s))
 
@@ -537,23 +533,17 @@ theorem run1_cons (mb : Nat) (s : St) (c : Nat) (rest : List Nat) (h : s.notif =
   unfold run1 run1State; rw [h]
 
 theorem cfginv_step (L0 kv0 B F0 mb s op) (h : Inv L0 kv0 B s) (hc : CfgInv F0 s)
-    (h1 : op ≠ Op.restart) (h2 : op ≠ Op.append (Payload.config false)) (h3 : ∀ S, op ≠ Op.snap S) :
+    (h1 : op ≠ Op.restart) (h3 : ∀ S, op ≠ Op.snap S) :
     CfgInv F0 (step mb s op) := by
   have hin := h.inLog
   cases op with
   | restart => exact absurd rfl h1
   | snap S => exact absurd rfl (h3 S)
   | append p =>
-    refine ⟨?_, hc.le, ?_⟩
-    · intro q hq
-      have hq' : q ∈ s.log ++ [p] := hq
-      simp only [List.mem_append, List.mem_singleton] at hq'
-      rcases hq' with hq' | hq'
-      · exact hc.ok q hq'
-      · subst hq'; exact fun hp => h2 (by rw [hp])
+    refine ⟨hc.le, ?_⟩
     · show s.cfgCalls = cfgOf (seg (s.log ++ [p]) F0 (frontier s))
       rw [seg_append_log _ _ _ _ hin]; exact hc.calls
-  | commit c => exact ⟨hc.ok, hc.le, hc.calls⟩
+  | commit c => exact ⟨hc.le, hc.calls⟩
   | fetch =>
     show CfgInv F0 (fetch s)
     unfold fetch
@@ -562,14 +552,14 @@ theorem cfginv_step (L0 kv0 B F0 mb s op) (h : Inv L0 kv0 B s) (hc : CfgInv F0 s
     · split
       · exact hc
       · split
-        · exact ⟨hc.ok, hc.le, hc.calls⟩
-        · exact ⟨hc.ok, hc.le, hc.calls⟩
+        · exact ⟨hc.le, hc.calls⟩
+        · exact ⟨hc.le, hc.calls⟩
   | apply =>
     show CfgInv F0 (applyHeld s)
     have hf := applyHeld_frontier L0 kv0 B s h
     have hlog : (applyHeld s).log = s.log := by unfold applyHeld; split <;> rfl
     have hcalls : (applyHeld s).cfgCalls = s.cfgCalls := by unfold applyHeld; split <;> rfl
-    exact ⟨by rw [hlog]; exact hc.ok, by rw [hf]; exact hc.le, by rw [hcalls, hlog, hf]; exact hc.calls⟩
+    exact ⟨by rw [hf]; exact hc.le, by rw [hcalls, hlog, hf]; exact hc.calls⟩
   | run1 =>
     show CfgInv F0 (run1 mb s)
     cases hn : s.notif with
@@ -593,7 +583,7 @@ theorem cfginv_step (L0 kv0 B F0 mb s op) (h : Inv L0 kv0 B s) (hc : CfgInv F0 s
           · exact hall x (List.mem_cons_of_mem _ (List.mem_of_mem_take hx))
         · intro x hx
           exact hall x (List.mem_cons_of_mem _ (List.mem_of_mem_drop hx))
-      have hc1 : CfgInv F0 s1 := by subst hs1; exact ⟨hc.ok, hc.le, hc.calls⟩
+      have hc1 : CfgInv F0 s1 := by subst hs1; exact ⟨hc.le, hc.calls⟩
       -- case analysis on process_batch
       by_cases hdead : s1.workerDead = true
       · have : processBatch s1 = s1 := by unfold processBatch; simp [hdead]
@@ -607,23 +597,20 @@ theorem cfginv_step (L0 kv0 B F0 mb s op) (h : Inv L0 kv0 B s) (hc : CfgInv F0 s
                 unfold frontier; omega
               simp [hnd, hpl, hstart, hsp]
             rw [this]; exact hc1
-          · obtain ⟨k, hk, hfr, hcalls, herr, hlog⟩ := processBatch_effect L0 kv0 B s1 hInv1 hnd hpl hsp
-            have hokseg : ∀ e ∈ seg s1.log (frontier s1) (min s1.pending s1.log.length),
-                e.2 ≠ Payload.config false := fun e he => hc1.ok _ (seg_snd_mem _ _ _ e he)
-            obtain ⟨hnoerr, hcfg⟩ := pb_fold_cfg _ {} hokseg rfl
-            have hfull := herr hnoerr
-            refine ⟨by rw [hlog]; exact hc1.ok, by rw [hfr]; have := hc1.le; omega, ?_⟩
-            rw [hcalls, hcfg, hc1.calls, hlog, hfr, hfull]
+          · obtain ⟨k, hk, hfr, hcalls, hcfgeq, hlog⟩ := processBatch_effect L0 kv0 B s1 hInv1 hnd hpl hsp
+            have hcfg := pb_fold_cfg_all (seg s1.log (frontier s1) (min s1.pending s1.log.length)) {}
+            refine ⟨by rw [hfr]; have := hc1.le; omega, ?_⟩
+            rw [hcalls, hcfg, hc1.calls, hlog, hfr, ← hcfgeq]
             simp only [List.nil_append]
             rw [← cfgOf_append]
             congr 1
-            exact (seg_split s1.log F0 (frontier s1) (min s1.pending s1.log.length) hc1.le (by omega)
+            exact (seg_split s1.log F0 (frontier s1) (frontier s1 + k) hc1.le (by omega)
               hInv1.inLog).symm
         · have : processBatch s1 = s1 := by unfold processBatch; simp [hnd, hpl]
           rw [this]; exact hc1
 
 theorem cfg_exec (L0 kv0 B F0 mb) (ops : List Op) (s : St) (hi : Inv L0 kv0 B s) (hc : CfgInv F0 s)
-    (hw : WfOps ops) (hnr : NoRestart ops) (hok : AllCfgOk ops) (hB : ∀ c, Op.commit c ∈ ops → c ≤ B) :
+    (hw : WfOps ops) (hnr : NoRestart ops) (hB : ∀ c, Op.commit c ∈ ops → c ≤ B) :
     CfgInv F0 (exec mb s ops) := by
   induction ops generalizing s with
   | nil => exact hc
@@ -631,29 +618,27 @@ theorem cfg_exec (L0 kv0 B F0 mb) (ops : List Op) (s : St) (hi : Inv L0 kv0 B s)
     show CfgInv F0 (exec mb (step mb s op) ops)
     apply ih
     · exact inv_step L0 kv0 B mb s op hi (hw op (by simp)) (fun c hc => hB c (by rw [hc]; simp))
-    · exact cfginv_step L0 kv0 B F0 mb s op hi hc (hnr op (by simp)) (hok op (by simp)) (fun S hS => by have := hw op (by simp); subst hS; simp [okOp] at this)
+    · exact cfginv_step L0 kv0 B F0 mb s op hi hc (hnr op (by simp)) (fun S hS => by have := hw op (by simp); subst hS; simp [okOp] at this)
     · exact fun o ho => hw o (List.mem_cons_of_mem _ ho)
     · exact fun o ho => hnr o (List.mem_cons_of_mem _ ho)
-    · exact fun o ho => hok o (List.mem_cons_of_mem _ ho)
     · exact fun c hc => hB c (List.mem_cons_of_mem _ hc)
 
-/-- **Config entries are applied to membership exactly once and in log order** (restart-free schedules in
-    which membership accepts every change): the list of `Membership::apply_config_change` calls is exactly
-    the Config entries among the dispatched log entries `L0+1 ..= frontier`, in order. (What happens when a
-    change is rejected is `pb_fold_cfg_all`: later Config entries of the same `process_batch` call
-    are skipped for good.) -/
+/-- **Config entries are applied to membership exactly once and in log order** (restart-free schedules;
+    membership may reject changes): the list of `Membership::apply_config_change` calls is exactly the
+    Config entries among the dispatched log entries `L0+1 ..= frontier`, in order. After a rejected change
+    `process_batch` returns early, but the tail it leaves unsent contains no Config entry
+    (`processEntries_rest_noconfig`) and is re-fetched by the next call. -/
 theorem cfg_applied_exact (mb : Nat) (s0 : St) (ops : List Op) (h0 : Init s0) (hw : WfOps ops)
-    (hnr : NoRestart ops) (hok : AllCfgOk ops) (hlog : ∀ p ∈ s0.log, p ≠ Payload.config false)
-    (hc0 : s0.cfgCalls = []) :
+    (hnr : NoRestart ops) (hc0 : s0.cfgCalls = []) :
     let s := exec mb s0 ops
     s.cfgCalls = cfgOf (seg s.log s0.lastApplied (frontier s)) := by
   intro s
   have hf0 : frontier s0 = s0.lastApplied := by have := h0.disp; unfold frontier; omega
   have hc0' : CfgInv s0.lastApplied s0 := by
-    refine ⟨hlog, by rw [hf0]; exact Nat.le_refl _, ?_⟩
+    refine ⟨by rw [hf0]; exact Nat.le_refl _, ?_⟩
     rw [hc0, hf0, seg_self]; rfl
   exact (cfg_exec s0.lastApplied s0.kv (maxCommit ops) s0.lastApplied mb ops s0
-    (inv_init s0 _ h0) hc0' hw hnr hok (le_maxCommit ops)).calls
+    (inv_init s0 _ h0) hc0' hw hnr (le_maxCommit ops)).calls
 
 /-! ### The monitor predicate holds on the model; snapshot install breaks it (F60) -/
 
